@@ -134,7 +134,52 @@ def fanin(rng):
     return {"cfg": _cfg(rng, 4, edges), "ops": ops}
 
 
-FAMILIES = {"failwin": failwin, "fanin": fanin}
+def inflight(rng):
+    """X dies while monitor writes of its last steps are in flight and its manager was written in
+    between (C10: the restarted node replays the in-flight updates it recorded, or finds them landed)."""
+    n = rng.choice([2, 2, 3])
+    x = rng.randrange(n)
+    pairs = [(i, i + 1) for i in range(n - 1)]
+    ops = []
+    npay = 0
+    for _ in range(rng.randrange(1, 4)):
+        a = rng.randrange(n)
+        b = rng.choice([j for j in range(n) if j != a])
+        ops.append({"op": "send", "from": a, "to": b, "amt": rng.choice(["big", "justabove", "dust"])})
+        npay += 1
+    ops.append({"op": "deliver_all"})
+    ops.append({"op": "persist_mode", "node": x, "mode": "inprogress"})
+    for round_ in range(rng.choice([1, 1, 2])):
+        r = rng.random()
+        if r < 0.35:
+            a = rng.randrange(n)
+            b = rng.choice([j for j in range(n) if j != a])
+            ops.append({"op": "send", "from": a, "to": b, "amt": rng.choice(["big", "justabove"])})
+            npay += 1
+        elif r < 0.8:
+            ops.append({"op": "claim" if rng.random() < 0.7 else "fail", "pay": rng.randrange(npay)})
+        else:
+            ops.append({"op": "fee", "node": 0, "feerate": rng.choice([500, 1000, 2000])})
+        dirs = [(a, b) for (a, b) in pairs] + [(b, a) for (a, b) in pairs]
+        for _ in range(rng.randrange(1, 7)):
+            r = rng.random()
+            if r < 0.75:
+                ops += _deliveries(rng, dirs, 1)
+            elif r < 0.9:
+                ops.append({"op": "forward", "node": rng.randrange(n)})
+            else:
+                ops.append({"op": "complete", "node": x, "which": rng.choice(["oldest", "newest"])})
+        ops.append({"op": "crash", "node": x, "mgr": rng.choice([0, 0, 0, 1]), "mon": rng.choice(["durable", "latest", "random"])})
+        for (a, b) in pairs:
+            ops.append({"op": "reconnect", "a": a, "b": b})
+        ops += _deliveries(rng, dirs, rng.randrange(0, 8))
+        if round_ == 0 and rng.random() < 0.5:
+            ops.append({"op": "persist_mode", "node": x, "mode": "inprogress"})
+    ops += _wind_down(npay, rng, pairs)
+    return {"cfg": _cfg(rng, n), "ops": ops}
+
+
+FAMILIES = {"failwin": failwin, "fanin": fanin, "inflight": inflight}
 
 
 def make(rng, family, count):
